@@ -1053,7 +1053,7 @@ def replay(path):
             "--budget", str(v.get("budget", 0)), "--lo", str(v.get("lo", 0)), "--hi", str(v.get("hi", 0)),
             "--alloc-mode", str(v.get("alloc_mode", 0))]
     if "fault_at" in v:
-        argv += ["--fault-at", str(v["fault_at"]), "--fault-err", "true" if v.get("fault_err") else "false"]
+        argv += ["--fault-at", str(v["fault_at"]), "--fault-err", "true" if v.get("fault_err") else "false", "--fault-kind", str(v.get("fault_kind", 0)), "--fault-once", str(v.get("fault_once", 0))]
     if "fail_at" in v:
         argv += ["--fail-at", str(v["fail_at"])]
     if "window_ms" in v:
